@@ -151,6 +151,9 @@ def check(run, views, tier):
                 run.anchor_lost("R-FORWARD", fn)
                 continue
             r = paths_of(b)[0].ret
+            if fn.endswith("::default") and is_call(r, "ipp::payload::IppPayload::empty") and not r[2]:
+                run.ob("R-FORWARD", "%s wraps its argument as %s" % (fn.split("::")[-1], variant), True, "delegates to IppPayload::empty()", site(b), key="R-FORWARD|ctor|%s" % fn)
+                continue
             inner = r[2].get("inner") if (r[0] == "ctor" and isinstance(r[2], dict)) else None
             ok = inner is not None and inner[0] == "ctor" and inner[1] == "ipp::payload::PayloadKind::" + variant
             if ok and boxed:
